@@ -122,6 +122,47 @@ PUNCT_CPP = (PUNCT_C.replace("struct s *p, struct s v,", "s *p, s v,")
              "template <typename... A> int k(A... a) { return sizeof...(a); }\nauto l = [](auto&&... x) -> int { return 0; };\n")
 
 
+BRACE_DIRECTIVE = """int f(int x) { // entry
+#ifdef TRACE
+    t(x);
+#endif
+    if (x) { // c
+#if FOO
+        a();
+#endif
+    }
+    for (x = 0; x < 3; x++) { /* loop */
+#pragma omp parallel for
+        for (int i = 0; i < 2; i++) { b(i); }
+    }
+    while (x)
+    { // own line already
+#if BAR
+        x--;
+#endif
+    }
+    if (x) // comment before the brace
+#if BAZ
+    {
+        c();
+    }
+#else
+    {
+        d();
+    }
+#endif
+    struct s { /* fields */
+#ifdef WIDE
+        long v;
+#else
+        int v;
+#endif
+    } y;
+    return x;
+}
+"""
+
+
 def make_cases(r, tier):
     nc, ng, no = (60, 60, 30) if tier == "quick" else (1100, 1500, 500)
     cases = []
@@ -162,6 +203,13 @@ def make_cases(r, tier):
     for lang, text in (("C", PUNCT_C), ("CPP", PUNCT_CPP)):
         for tag, cfg in (("default", ""), ("sp-remove", sp_remove), ("sp-force", sp_force)):
             cases.append(lx.LCase("punctuators:%s:%s" % (lang, tag), lang, cfg, text.encode()))
+    # braces that the nl_*_brace options move, with a comment behind them and a directive on the next line: moving a token must
+    # never carry it across a preprocessor line
+    brace_opts = [o["name"] for o in lx.registry() if o["name"].startswith("nl_") and o["name"].endswith("_brace") and o["type"] == "iarf_e"]
+    for v in ("add", "force", "remove"):
+        cfg = "".join("%s=%s\n" % (o, v) for o in brace_opts)
+        for lang in ("C", "CPP"):
+            cases.append(lx.LCase("brace-comment-directive:%s:%s" % (lang, v), lang, cfg, BRACE_DIRECTIVE.encode()))
     others = lx.corpus_cases(r, no, langs=("CS", "D", "JAVA", "PAWN", "VALA", "ECMA"))
     for i, c in enumerate(others):
         c.cfg_text, tag = cfg_for(i)
